@@ -31,11 +31,36 @@ func RenameBlankIdentifier(sig *types.Signature) *types.Signature {
 // The given prefix is used to rename.
 func RenameBlankIdentifierWith(sig *types.Signature, prefix string) *types.Signature {
 	params := sig.Params()
+	results := unnamed(sig.Results())
 	if !hasBlankIdentifier(params) {
-		return sig
+		if results == sig.Results() {
+			return sig
+		}
+		return types.NewSignature(sig.Recv(), params, results, sig.Variadic())
 	}
 	renamedTuple := rename(params, prefix)
-	return types.NewSignature(sig.Recv(), renamedTuple, sig.Results(), sig.Variadic())
+	return types.NewSignature(sig.Recv(), renamedTuple, results, sig.Variadic())
+}
+
+// unnamed returns the results without their names.
+// A named result of the generated wrapper would shadow the function (f) that the wrapper calls,
+// or collide with one of the wrapper's parameters, and its name means nothing to the caller.
+func unnamed(results *types.Tuple) *types.Tuple {
+	named := false
+	for i := 0; i < results.Len(); i++ {
+		if results.At(i).Name() != "" {
+			named = true
+		}
+	}
+	if !named {
+		return results
+	}
+	vars := make([]*types.Var, results.Len())
+	for i := range vars {
+		v := results.At(i)
+		vars[i] = types.NewVar(v.Pos(), v.Pkg(), "", v.Type())
+	}
+	return types.NewTuple(vars...)
 }
 
 func hasBlankIdentifier(tup *types.Tuple) bool {
